@@ -204,6 +204,12 @@ func c01Matrix(r *core.Run, goose string) {
 func c01Statements(r *core.Run, goose string) {
 	var pk []*gen.Package
 	atoms := append(append([]gen.OutsideAtom{}, gen.InsideAtoms...), gen.AcceptedShapeAtoms()...)
+	// generated families (one effectful operand at every operand position, string literal byte classes,
+	// composite types nested in every type position, program-bound names that coincide with library names)
+	frng := core.NewRng(r.Seed, "c01-families")
+	fam := gen.FamilyAtoms("C01", r.Quick(), frng.Intn)
+	atoms = append(atoms, fam...)
+	r.Set("family_atoms", len(fam))
 	for _, a := range atoms {
 		pk = append(pk, gen.AtomPackage("i_", a))
 	}
